@@ -46,6 +46,34 @@ def union_cases(seed, n):
                 data = [node(2) for _ in range(3)]
                 out.append((s, data, {"dtn": False, "strict": False}))
                 continue
+            if i % 15 == 13:
+                # an earlier named branch carries an ALIAS equal to the name (or short name) of a later branch: a
+                # (name, value) hint still selects exactly the branch NAMED so
+                ns = r.choice(["", "demo"])
+                q = (ns + ".") if ns else ""
+                kindk = r.choice(["record", "enum", "fixed"])
+                later_alias = r.choice([q + "Event", "Event"])
+                if kindk == "record":
+                    first = {"type": "record", "name": q + "LegacyEvent", "aliases": [later_alias], "fields": [{"name": "id", "type": "int"}]}
+                    later = {"type": "record", "name": q + "Event", "fields": [{"name": "id", "type": "int"}, {"name": "src", "type": "string", "default": "web"}]}
+                    val = lambda: {"id": r.randint(0, 9), "src": r.choice(["a", "web"])}
+                    val0 = lambda: {"id": r.randint(0, 9)}
+                elif kindk == "enum":
+                    first = {"type": "enum", "name": q + "LegacyEvent", "aliases": [later_alias], "symbols": ["A", "B"]}
+                    later = {"type": "enum", "name": q + "Event", "symbols": ["B", "A", "C"]}
+                    val = lambda: r.choice(["A", "B", "C"])
+                    val0 = lambda: r.choice(["A", "B"])
+                else:
+                    first = {"type": "fixed", "name": q + "LegacyEvent", "aliases": [later_alias], "size": 2}
+                    later = {"type": "fixed", "name": q + "Event", "size": 2}
+                    val = lambda: bytes([r.randint(0, 255), 1])
+                    val0 = val
+                u = ["null", first, later]
+                s = u if r.random() < 0.5 else {"type": "record", "name": "Env", "fields": [{"name": "e", "type": u}, {"name": "es", "type": {"type": "array", "items": ["null", q + "LegacyEvent", q + "Event"]}}]}
+                items = [(q + "Event", val()), (q + "LegacyEvent", val0()), None, (q + "Event", val())]
+                data = items if s is u else [{"e": x, "es": [x, items[(k + 1) % 4]]} for k, x in enumerate(items)]
+                out.append((s, data, {"dtn": False, "strict": False}))
+                continue
             if i % 15 == 11:
                 # the float -> double deferral under every spelling of the two branches (bare name, {"type": ...},
                 # {"type": ..., other attributes}), any position, any nesting
@@ -133,10 +161,43 @@ def run(tier, seed):
     model = run_batch([dict(r, op="enc") for r in reqs])
     norm = run_batch([dict(r, op="normalize") for r in reqs])
     dreqs, dmeta = [], []
+    import collections as _collections
+
+    def as_mapping(x, kind):
+        """the same datum with its dicts replaced by another mapping type"""
+        if isinstance(x, dict):
+            items = [(k_, as_mapping(y, kind)) for k_, y in x.items()]
+            if kind == "ordered":
+                return _collections.OrderedDict(items)
+            d = _collections.defaultdict(list)
+            d.update(items)
+            return d
+        if isinstance(x, list):
+            return [as_mapping(y, kind) for y in x]
+        if isinstance(x, tuple):
+            return tuple(as_mapping(y, kind) for y in x)
+        return x
     for k, (ci, di) in enumerate(idx):
         s, data, opts = cases[ci]
         v = data[di]
         ie = impl.enc(s, v, opts)
+        if k % 5 == 0 and "bytes" in ie:
+            # the same items held in another kind of mapping, and the same datum object written a second time:
+            # the choice is a function of schema and datum alone
+            for kind in ("ordered", "defaultdict", "again"):
+                v2 = v if kind == "again" else as_mapping(v, kind)
+                before = to_wire(v2)
+                ie2 = impl.enc(s, v2, opts)
+                run.cov["evaluations"] += 1
+                if ie2.get("bytes") != ie["bytes"]:
+                    run.fail({"schema": s, "value": to_wire(v), "opts": opts, "variant": kind, "first": ie, "second": ie2, "tags": ["mapping-kind"]},
+                             "the same datum (%s) is written differently" % ("written a second time" if kind == "again" else "held in a " + kind), kind="oracle")
+                    break
+                if to_wire(v2) != before:
+                    run.fail({"schema": s, "value": before, "after": to_wire(v2), "opts": opts, "variant": kind, "tags": ["mapping-kind"]},
+                             "writing changed the datum handed to the writer", kind="oracle")
+                    break
+            run.tag("mapping-kinds")
         case = {"schema": s, "value": to_wire(v), "opts": opts}
         tags = sorted(t for t in schema_tags(s) if t in ("union", "record", "ref", "enum", "fixed"))
         inside = "ok" in norm[k] and "bytes" in model[k]
